@@ -10,7 +10,7 @@
     decides those clauses on every explored input directly on the implementation's output, and ties
     the recovery model (LR/Driver.v error_recovery) to Parser::error_recovery by in-Coq evaluation. *)
 From Coq Require Import List ZArith.
-From LV Require Import LR.Driver LR.Validator LR.Safety LR.ValidatorSpec LR.Soundness LR.Completeness LR.RecoverySound LR.TokenAccount LR.Main.
+From LV Require Import LR.Driver LR.Validator LR.Safety LR.ValidatorSpec LR.Soundness LR.Completeness LR.RecoverySound LR.TokenAccount LR.SpanAccount LR.Main.
 Import ListNotations.
 
 Theorem C16_sentences_need_no_recovery : forall A C, valid A C = true ->
@@ -64,3 +64,35 @@ Theorem C16_dropped_lists_hold_input_tokens_in_order : forall A orc fuel input v
   drive A orc fuel input = (ROk v, s) -> Forall (fun d => Subseq d (toks input)) (drops v).
 Proof. exact dropped_lists_are_subsequences. Qed.
 Print Assumptions C16_dropped_lists_hold_input_tokens_in_order.
+
+(** span accounting.  [AccL kids segs lo hi] (LR/SpanAccount.v): the subtrees kids account, left to
+    right, for exactly the token segments segs -- a leaf for its token, a node for its children's
+    segments, an error node for the tokens it swallowed (those of popped stack entries, then the
+    dropped ones), all of which lie inside its span -- with spans well-formed and ordered.
+    For ANY tables, on an input whose tokens have non-negative, well-formed, pairwise ordered spans, the
+    children of a returned root account for a contiguous part of the input. *)
+Theorem C16_every_token_is_accounted_for : forall A orc fuel input p k ks s,
+  sorted (toks input) ->
+  drive A orc fuel input = (ROk (Node p (k :: ks)), s) ->
+  exists pre_b segs lo hi lafin, AccL (k :: ks) segs lo hi /\
+    (pre_b ++ concat segs) ++ SpanAccount.latok lafin ++ toks (rest s) = toks input /\
+    (length (k :: ks) = length (stk s) -> pre_b = []).
+Proof. exact tokens_accounted_with_spans. Qed.
+Print Assumptions C16_every_token_is_accounted_for.
+
+(* on validated tables (with or without `!`): the children of the root partition the WHOLE input --
+   every token is a leaf or lies inside the span of the error node that swallowed it -- and the
+   error-node spans of the tree, left to right, are well-formed, ordered and disjoint *)
+Theorem C16_whole_input_accounted_on_validated_tables : forall A C orc fuel w p k ks s,
+  shape A C = true -> exact A C = true -> start_eof_only A = true ->
+  Forall (RecoverySound.tok_ok A) w -> sorted w ->
+  drive A orc fuel (map IOk w) = (ROk (Node p (k :: ks)), s) ->
+  exists segs lo hi, AccL (k :: ks) segs lo hi /\ concat segs = w /\ spchain lo (flat_map errspans (k :: ks)) hi.
+Proof. exact tokens_accounted_on_validated_tables. Qed.
+Print Assumptions C16_whole_input_accounted_on_validated_tables.
+
+(* what the relation gives: spans contain their tokens *)
+Theorem C16_accounted_tokens_lie_inside_the_span : forall t seg lo hi,
+  Acc t seg lo hi -> Forall tok_wf seg -> (lo <= hi)%Z /\ Within lo hi seg.
+Proof. exact acc_facts. Qed.
+Print Assumptions C16_accounted_tokens_lie_inside_the_span.
